@@ -1,0 +1,49 @@
+//go:build verif && amd64
+
+package sm4
+
+// Exports for the verification harness (amd64 assembly entry points).
+
+func VerifCanDoAsm() bool      { return candoAsm }
+func VerifSetCanDoAsm(on bool) { candoAsm = on }
+
+func VerifExpandKeyAsm(key []byte) (enc, dec [32]uint32) {
+	expandKeyAsm(&key[0], &enc[0], &dec[0])
+	return
+}
+
+// VerifKernel runs the n-block vector kernel (n in 1,2,4,8,16) on raw pointers.
+func VerifKernel(n int, rk *uint32, dst, src *byte) {
+	switch n {
+	case 1:
+		cryptoBlockAsm(rk, dst, src)
+	case 2:
+		cryptoBlockAsmX2(rk, dst, src)
+	case 4:
+		cryptoBlockAsmX4(rk, dst, src)
+	case 8:
+		cryptoBlockAsmX8(rk, dst, src)
+	case 16:
+		cryptoBlockAsmX16(rk, dst, src)
+	default:
+		panic("no such kernel")
+	}
+}
+
+func VerifGHashBlocks(H, tag, data *byte, count int) { gHashBlocks(H, tag, data, count) }
+func VerifEnsureCapacity(a []byte, asked int) []byte { return ensureCapacity(a, asked) }
+func VerifNeedExpand(a []byte, asked int) int        { return needExpand(a, asked) }
+func VerifCopyAsm(dst, src *byte, n int)             { copyAsm(dst, src, n) }
+
+func VerifSealAsm(rk *uint32, tagSize int, dst *byte, nonce, plaintext, aad []byte, temp *byte) {
+	sealAsm(rk, tagSize, dst, nonce, plaintext, aad, temp)
+}
+
+func VerifOpenAsm(rk *uint32, tagSize int, dst *byte, nonce, ciphertext, aad []byte, temp *byte) int {
+	return openAsm(rk, tagSize, dst, nonce, ciphertext, aad, temp)
+}
+
+func VerifTranspose4x4(dst, src *uint32)     { transpose4x4(dst, src) }
+func VerifTranspose1x4(dst, src *uint32)     { transpose1x4(dst, src) }
+func VerifConcatenateX(x1, x2, x3, x4 *byte) { concatenateX(x1, x2, x3, x4) }
+func VerifConcatenateY(y1, y2 *byte)         { concatenateY(y1, y2) }
